@@ -332,6 +332,66 @@ func runC12(c *core.Check) {
 	c.Rule("C12.strindex", "offsets are applied to the string that was searched")
 	c.Rule("C12.reserved", "matchPattern returns true only after the reserved-keyword test failed; glob walkers append only non-reserved fields and test Name first")
 	c.Rule("C12.self-edge", "glob edge creation is reached only when the self-edge test failed")
+	c.Rule("C12.reapply", "compileKey re-applies the lazy globs when any recursive element count of the scope changed (fields and connections)")
+	if ck := mustFunc(c, "d2ir", "compiler", "compileKey"); ck != nil {
+		info := ck.Pkg.TypesInfo
+		// the counters Map offers
+		var counters []string
+		if pk := c.P.Pkg("d2ir"); pk != nil {
+			for _, fi := range c.P.Funcs(pk) {
+				if strings.HasPrefix(fname(fi), "d2ir.(*Map).") && strings.HasSuffix(fi.Obj.Name(), "CountRecursive") {
+					counters = append(counters, fi.Obj.Name())
+				}
+			}
+		}
+		// the `if` whose body re-compiles glob contexts
+		var trigger *ast.IfStmt
+		ast.Inspect(ck.Decl.Body, func(n ast.Node) bool {
+			is, ok := n.(*ast.IfStmt)
+			if !ok {
+				return true
+			}
+			re := false
+			ast.Inspect(is.Body, func(m ast.Node) bool {
+				if call, ok := m.(*ast.CallExpr); ok && core.IsCallTo(info, call, "d2ir.(*compiler).compileKey") {
+					re = true
+				}
+				return true
+			})
+			if re && strings.Contains(exprStr(is.Cond), "CountRecursive") {
+				trigger = is
+			}
+			return true
+		})
+		if trigger == nil || len(counters) < 2 {
+			c.Fail("C12.reapply", "compileKey:trigger", ck.Decl.Pos(), "the re-application test on the recursive element counts was not found: globs declared earlier are not applied to elements this key adds")
+		} else {
+			for _, cn := range counters {
+				// old := scope.cn() before; old != scope.cn() in the trigger
+				okc := false
+				ast.Inspect(trigger.Cond, func(n ast.Node) bool {
+					be, ok := n.(*ast.BinaryExpr)
+					if !ok || be.Op != token.NEQ {
+						return true
+					}
+					for _, pr := range [][2]ast.Expr{{be.X, be.Y}, {be.Y, be.X}} {
+						call, ok := ast.Unparen(pr[1]).(*ast.CallExpr)
+						if !ok || !core.IsCallTo(info, call, "d2ir.(*Map)."+cn) {
+							continue
+						}
+						o := core.ObjOf(info, pr[0])
+						if d := singleDef(ck, o); d != nil && d.Stmt.Pos() < trigger.Pos() {
+							if c2, ok := ast.Unparen(d.Rhs).(*ast.CallExpr); ok && core.IsCallTo(info, c2, "d2ir.(*Map)."+cn) && exprStr(c2.Fun) == exprStr(call.Fun) {
+								okc = true
+							}
+						}
+					}
+					return true
+				})
+				c.Decide(okc, "C12.reapply", "compileKey:trigger:"+cn, trigger.Pos(), "count taken before compiling the key and compared after", "the re-application test ignores "+cn+": when a key adds only such elements (e.g. a glob that creates connections between existing objects), earlier globs are not applied to them")
+			}
+		}
+	}
 	mp := mustFunc(c, "d2ir", "", "matchPattern")
 	if mp == nil {
 		return
